@@ -119,6 +119,18 @@ def check_text(text, exp, res, extract_mod, label):
     if got != want:
         res.violation(classify(text, "extract-mismatch"), f"tags read differ from the tags outside ignore blocks ({label})",
                       text=text, got={k: sorted(v) for k, v in got.items()}, want={k: sorted(v) for k, v in want.items()})
+        return
+    # the yes/no reading that annotate uses (--skip-existing, header search) goes by the same rule: ignored tags are no information
+    has = getattr(extract_mod, "contains_reuse_info", None)
+    if has is not None and "raised" not in want:
+        try:
+            said = bool(has(text))
+        except Exception as e:  # noqa
+            res.violation("contains-reuse-info-raises", f"contains_reuse_info raised {type(e).__name__} ({label})", text=text)
+            return
+        if said != any(want.values()):
+            res.violation(classify(text, "contains-reuse-info-disagrees"), f"contains_reuse_info says {said} but the tags outside ignore blocks are "
+                          f"{ {k: sorted(v) for k, v in want.items()} } ({label})", text=text)
 
 
 def generate(tier, seed):
